@@ -5,6 +5,9 @@ HERE = os.path.dirname(os.path.dirname(os.path.abspath(__file__)))
 ALL = ["C%02d" % i for i in range(1, 21)]
 
 CHECKS = {
+ "C08": dict(cat="exploration", tech="twin-interpreter differential monitor numpy vs torch(cpu) over generated numeric-core programs, four-configuration (backend x compiler on/off) localisation of divergences",
+   text="Generated programs of the numeric core (depth<=3: arithmetic, comparison, min/max, negate, floor, reverse, reductions, scans, each, index, take/drop, join) over scalar/vector/matrix bindings run under both backends in fresh interpreters; canonical value (shape, integer/real kind, float32 tolerance) and normalised writer text are compared whenever both return, and compiler-only programs must be accepted by both. Held on the programs observed.",
+   note="torch cpu float32; operands kept small so integer results stay exact in float32; nested/ragged operands excluded (object arrays).", ref="DESIGN.md §4 C08"),
  "C05": dict(cat="exploration", tech="twin-interpreter differential monitor: real compiler (instrumented, invocations counted) vs compile_expr stubbed to None by attribute assignment",
    text="Generated expressions of the compilable grammar (depth<=3) in four evaluation positions, over bindings of every class and rebinding histories, on numpy and torch, are executed in a compiling interpreter and in a non-compiling twin and compared exactly; only cases where the compiled callable really ran count. Divergences are localised to one IR node by single-operator probes and matched against mechanism-keyed known findings.",
    note="compile_expr is looked up as a module global at call time (a run with no compiled invocation is inconclusive); nested lists are exercised on numpy only (object arrays under torch).", ref="DESIGN.md §4 C05"),
